@@ -200,7 +200,12 @@ def verify_function(tu, fname, externs, init=pycfunction_init, config=None,
         key = (ob.site, ob.goal.get_id(), tuple(p.get_id() for p in ob.pc)
                if ob.pc is not None else None)
         uniq.setdefault(key, ob)
+    only = (config or {}).get('only_kinds')
     for ob in uniq.values():
+        if only is not None and ob.kind not in only:
+            # this run decides only the listed kinds (the others belong to
+            # another check of the same function); nothing is reported
+            continue
         t_ob = time.time()
         discharge(ex, ob, timeout_ms)
         ob.extra['solve_s'] = round(time.time() - t_ob, 2)
